@@ -199,7 +199,7 @@ class Canon:
         if tn in ("ExternalOperator", "Interpolate"):
             extra = (
                 ("space", self.space(o.ufl_function_space())),
-                ("derivatives", tuple(o.derivatives)),
+                ("derivatives", tuple(o.derivatives) if o.derivatives is not None else None),
                 ("slots", tuple(self.any(s) for s in o.argument_slots())),
             )
         return (tn, ops, extra)
